@@ -69,7 +69,11 @@ def drive(rec):
     if rec.get("bond_tolerance", 0.4) != 0.4 and len(rec["asym"]) % 2 == 0:
         # a caller who asks for the molecules straight away (the connectivity is then computed on their behalf)
         try:
-            cr.symmetry_unique_molecules(bond_tolerance=rec["bond_tolerance"])
+            if rec.get("bond_via") == "radii":
+                extra = (rec["bond_tolerance"] - 0.4) / 2.0
+                cr.symmetry_unique_molecules(covalent_radii={int(s["z"]): xtal.COV[s["z"]] + extra for s in rec["asym"]})
+            else:
+                cr.symmetry_unique_molecules(bond_tolerance=rec["bond_tolerance"])
         except Exception:
             pass
     try:
@@ -78,7 +82,15 @@ def drive(rec):
         off |= o
         t["ucpts"] = [{"p": r["p"], "z": r["z"]} for r in rows]
         kw = {} if rec.get("bond_tolerance", 0.4) == 0.4 else {"bond_tolerance": rec["bond_tolerance"]}
-        graph, props = cr.unit_cell_connectivity(**({"tolerance": rec["bond_tolerance"]} if kw else {}))
+        ckw = {"tolerance": rec["bond_tolerance"]} if kw else {}
+        if kw and rec.get("bond_via") == "radii":
+            # the same bonding rule asked for through enlarged covalent radii (every radius + (tolerance - 0.4) / 2) instead
+            # of through the tolerance
+            extra = (rec["bond_tolerance"] - 0.4) / 2.0
+            radii = {int(s["z"]): xtal.COV[s["z"]] + extra for s in rec["asym"]}
+            kw = {"covalent_radii": radii}
+            ckw = {"covalent_radii": radii}
+        graph, props = cr.unit_cell_connectivity(**ckw)
         for (i, j), cell in props.items():
             c = [int(round(float(x))) for x in cell]
             t["edges"].append([int(i) + 1, int(j) + 1, c])
@@ -214,6 +226,9 @@ def gen(args):
         rec = xtal.gen_molecular(rng, row, nmols=1, sizes=sizes, bond_tolerance=0.9, vol_per_atom=rng.choice([48.0, 60.0]), max_tries=150)
         if rec is not None:
             rec["src"] = "bond_tolerance=0.9"
+            if rng.random() < 0.5:
+                rec["bond_via"] = "radii"
+                rec["src"] = "covalent_radii enlarged by 0.25"
         return rec if rec is not None else {"__none__": True, "meta": {}}
     if nmols == "oblique":
         # strongly oblique cells, molecules across faces: a bond may cross a face steeply
